@@ -48,3 +48,18 @@ func VerifClosePerio(g *Gtp5g) { g.ps.Close() }
 func VerifQueryMulti(g *Gtp5g, m map[uint64][]uint32) (map[uint64][]report.USAReport, error) {
 	return g.psQueryURR(m)
 }
+
+// VerifNewFlowDesc returns the packed flow-description attributes (as they go into the netlink request)
+// newFlowDesc builds for the rule string `s`.
+func VerifNewFlowDesc(s string, swap bool) ([]byte, error) {
+	g := &Gtp5g{}
+	attrs, err := g.newFlowDesc(s, swap)
+	if err != nil {
+		return nil, err
+	}
+	b := make([]byte, attrs.Len())
+	if _, err := attrs.Encode(b); err != nil {
+		return nil, err
+	}
+	return b, nil
+}
